@@ -135,10 +135,22 @@ def run_e1(prop, tier, seed, slices, props=None, extra_factory=None,
     max_tape = 0
 
     def all_worlds():
-        for name, it in slices:
-            for w in it:
-                w["slice"] = name
-                yield w
+        # round-robin over the slices in blocks: if the time budget ends the run early,
+        # what was not explored (counted in `capped`) is spread over all slices instead
+        # of being the whole of the last ones
+        import itertools as _it
+
+        its = [(name, iter(it)) for name, it in slices]
+        while its:
+            alive = []
+            for name, it in its:
+                block = list(_it.islice(it, 48))
+                for w in block:
+                    w["slice"] = name
+                    yield w
+                if len(block) == 48:
+                    alive.append((name, it))
+            its = alive
 
     try:
         for res in pmap(e1.e1_job, all_worlds(), extra=(props, extra_factory,
